@@ -54,7 +54,9 @@ def analyze_source(repo, module, source, qual='<reference>'):
 
 def _is_logging(t):
     s = T.show(t)
-    return s.startswith(('cooler._logging', 'warnings.warn', 'print(', 'logger.', 'sys.exit')) or \
+    if s in ('print', 'click.echo', 'warnings.warn'):
+        return True
+    return s.startswith(('cooler._logging', 'warnings.warn', 'print(', 'logger.')) or \
         '.logger.' in s.split('(')[0] or s.split('(')[0].endswith(('logger.info', 'logger.debug', 'logger.warning'))
 
 
